@@ -26,7 +26,7 @@ SESSIONS = {
     "thorough": dict(C14=24000, C16=40000, C12=24000, C08=24000, C13=20000, C15=16000, C01=16000, C02=12000, C03=9000,
                      C04=12000, C05=6000, C06=16000, C07=16000, C09=8000),
 }
-MAX_MINIMISE_CLASSES = 6
+MAX_MINIMISE_CLASSES = 10
 PER_CLASS_TRIES = 8
 
 
@@ -60,7 +60,7 @@ def _worker(args):
         )
         if own:
             v = own[0]
-            rec["violation"] = dict(klass=v.klass(), v=v.to_json(), ops=jsonable(sess.oplog), knobs=jsonable(sess.knobs))
+            rec["violation"] = dict(klass=v.klass4(), v=v.to_json(), ops=jsonable(sess.oplog), knobs=jsonable(sess.knobs))
         if i < lo + 1:
             rec["sample_ops"] = jsonable(sess.oplog)
         out.append(rec)
